@@ -1166,7 +1166,9 @@ pub(crate) fn eval_query(ctx: &Context, expr: &Query) -> Result<QueryReply, Quer
                     out.push((category, name));
                 }
             }
-            if let Some((dim, _power)) = val.unit.as_single() {
+            // The base unit itself only has this dimensionality when it is
+            // not raised to a power (`units for area` must not list `meter`).
+            if let Some((dim, 1)) = val.unit.as_single() {
                 dim_name = ctx
                     .canonicalize(dim.as_str())
                     .unwrap_or_else(|| dim.to_string());
